@@ -70,6 +70,8 @@ impl<T> Entry<T> {
     // it's only safe for the consumer that call pop()
     pub fn remove(mut self) -> Option<T> {
         unsafe {
+            #[cfg(may_verif)]
+            crate::verif::pt("tl.rm.check", self.0.as_ptr() as usize, 0, 0);
             let node = self.0.as_mut();
 
             // when the link bit is cleared, next and prev is no longer valid
@@ -83,6 +85,8 @@ impl<T> Entry<T> {
                 return None;
             }
 
+            #[cfg(may_verif)]
+            crate::verif::pt("tl.rm.load_next", self.0.as_ptr() as usize, 0, 0);
             let next = node.next.load(Ordering::Acquire);
             let prev = &mut *node.prev;
 
@@ -97,6 +101,8 @@ impl<T> Entry<T> {
             // leave the last node not removed also persist the queue for a while
             // that prevent frequent queue create and destroy
             if !next.is_null() {
+                #[cfg(may_verif)]
+                crate::verif::pt("tl.rm.unlink", self.0.as_ptr() as usize, 0, 0);
                 // clear the link bit
                 node.refs &= REF_COUNT_MASK;
 
@@ -126,6 +132,8 @@ impl<T> Drop for Entry<T> {
     // running in a coroutine is a kind of sequential operation, so it can safely drop there after
     // returning from "kernel"
     fn drop(&mut self) {
+        #[cfg(may_verif)]
+        crate::verif::pt("tl.entry.drop", self.0.as_ptr() as usize, 0, 0);
         let node = unsafe { self.0.as_mut() };
         // dec the ref count of node
         node.refs -= 1;
@@ -168,9 +176,17 @@ impl<T> Queue<T> {
     pub fn push(&self, t: T) -> (Entry<T>, bool) {
         unsafe {
             let node = Node::new(Some(t));
+            #[cfg(may_verif)]
+            crate::verif::pt("tl.push.swap", crate::verif::addr(self), node as usize, 0);
             let prev = self.head.swap(node, Ordering::AcqRel);
+            #[cfg(may_verif)]
+            crate::verif::pt("tl.push.set_prev", crate::verif::addr(self), node as usize, 0);
             (*node).prev = prev;
+            #[cfg(may_verif)]
+            crate::verif::pt("tl.push.link", crate::verif::addr(self), node as usize, 0);
             (*prev).next.store(node, Ordering::Release);
+            #[cfg(may_verif)]
+            crate::verif::pt("tl.push.read_tail", crate::verif::addr(self), node as usize, 0);
             let tail = *self.tail.get();
             let is_head = std::ptr::eq(tail, prev);
             (Entry(ptr::NonNull::new_unchecked(node)), is_head)
@@ -180,6 +196,8 @@ impl<T> Queue<T> {
     /// if the queue is empty
     #[inline]
     pub fn is_empty(&self) -> bool {
+        #[cfg(may_verif)]
+        crate::verif::pt("tl.empty.load", crate::verif::addr(self), 0, 0);
         let tail = unsafe { *self.tail.get() };
         // the list is empty
         std::ptr::eq(self.head.load(Ordering::Acquire), tail)
@@ -190,6 +208,8 @@ impl<T> Queue<T> {
     /// the if you pop the head, it's unsafe hold the head ref
     #[inline]
     pub unsafe fn peek(&self) -> Option<&T> {
+        #[cfg(may_verif)]
+        crate::verif::pt("tl.peek.load_head", crate::verif::addr(self), 0, 0);
         let tail = *self.tail.get();
         // the list is empty
         if std::ptr::eq(self.head.load(Ordering::Acquire), tail) {
@@ -199,6 +219,8 @@ impl<T> Queue<T> {
         let mut next;
         let backoff = Backoff::new();
         loop {
+            #[cfg(may_verif)]
+            crate::verif::pt("tl.peek.spin", crate::verif::addr(self), 0, 0);
             next = (*tail).next.load(Ordering::Acquire);
             if !next.is_null() {
                 break;
@@ -217,6 +239,8 @@ impl<T> Queue<T> {
         F: Fn(&T) -> bool,
     {
         unsafe {
+            #[cfg(may_verif)]
+            crate::verif::pt("tl.popif.load_head", crate::verif::addr(self), 0, 0);
             let tail = *self.tail.get();
             // the list is empty
             if std::ptr::eq(self.head.load(Ordering::Acquire), tail) {
@@ -227,6 +251,8 @@ impl<T> Queue<T> {
             let mut next;
             let backoff = Backoff::new();
             loop {
+                #[cfg(may_verif)]
+                crate::verif::pt("tl.popif.spin", crate::verif::addr(self), 0, 0);
                 next = (*tail).next.load(Ordering::Acquire);
                 if !next.is_null() {
                     break;
@@ -243,6 +269,8 @@ impl<T> Queue<T> {
                 return None;
             }
 
+            #[cfg(may_verif)]
+            crate::verif::pt("tl.popif.commit", crate::verif::addr(self), 0, 0);
             // clear the link bit
             assert!((*tail).refs & REF_COUNT_MASK != 0);
             (*tail).refs &= REF_COUNT_MASK;
@@ -267,6 +295,8 @@ impl<T> Queue<T> {
     /// Pops some data from this queue.
     pub fn pop(&self) -> Option<T> {
         unsafe {
+            #[cfg(may_verif)]
+            crate::verif::pt("tl.pop.load_head", crate::verif::addr(self), 0, 0);
             let tail = *self.tail.get();
 
             // the list is empty
@@ -274,6 +304,8 @@ impl<T> Queue<T> {
                 return None;
             }
 
+            #[cfg(may_verif)]
+            crate::verif::pt("tl.pop.clear_link", crate::verif::addr(self), 0, 0);
             // clear the link bit
             assert!((*tail).refs & REF_COUNT_MASK != 0);
             (*tail).refs &= REF_COUNT_MASK;
@@ -282,12 +314,16 @@ impl<T> Queue<T> {
             let mut next;
             let backoff = Backoff::new();
             loop {
+                #[cfg(may_verif)]
+                crate::verif::pt("tl.pop.spin", crate::verif::addr(self), 0, 0);
                 next = (*tail).next.load(Ordering::Acquire);
                 if !next.is_null() {
                     break;
                 }
                 backoff.snooze();
             }
+            #[cfg(may_verif)]
+            crate::verif::pt("tl.pop.advance", crate::verif::addr(self), 0, 0);
             (*next).prev = ptr::null_mut();
             // move the tail to next
             *self.tail.get() = next;
